@@ -80,6 +80,16 @@ func specs(tier string) (out []*spec) {
 	add("two", two("forkstay", "exit0"), both, bound, "kill-near;kill-far", []opSpec{k("near", "p0"), k("far", "p1")})
 	add("two", two("forkstay", "exit0"), both, bound, "kill-near||kill-far", []opSpec{k("near", "p0")}, []opSpec{k("far", "p1")})
 	add("two", two("trapterm", "sigdie"), both, bound, "shutdown", []opSpec{term("p0"), term("p1"), k("near", "p0"), k("near", "p1")})
+	// ---- many processes, all exiting before anybody reads the event stream: one event each, none lost ----
+	for _, n := range []int{17, 24} {
+		var ps []procSpec
+		var names []string
+		for i := 0; i < n; i++ {
+			ps = append(ps, procSpec{fmt.Sprintf("p%d", i), []string{"exit0", "exit3", "sigdie"}[i%3]})
+			names = append(names, fmt.Sprintf("p%d", i))
+		}
+		out = append(out, &spec{name: fmt.Sprintf("many/%dx(exit0,exit3,sigdie)/natural+late-consumer", n), procs: ps, pre: names, bound: 1, boundAll: true, lateConsumer: true})
+	}
 	if !thorough {
 		return out
 	}
